@@ -1,5 +1,6 @@
 import LhasaV.Driver.Hex
 import LhasaV.Spec.Lz77
+import LhasaV.Model.Safe
 namespace LhasaV.Driver
 open LhasaV LhasaV.Spec.Lz77
 
@@ -19,6 +20,7 @@ def opSpec : List String → Option String
   | ["lzser", "lz5", cmds] => do let cs ← parseRCmds cmds; some (toHexL (serialiseLz5 cs))
   | ["lzexp", "lzs", cmds] => do let cs ← parseRCmds cmds; some (toHexL (expandLzs cs))
   | ["lzexp", "lz5", cmds] => do let cs ← parseRCmds cmds; some (toHexL (expandLz5 cs))
+  | ["safe", hex] => do let bs ← parseHex hex; some (toHexL (Safe.safeStr bs.toList))
   | _ => none
 
 end LhasaV.Driver
